@@ -24,6 +24,23 @@ def para_one(s: str) -> bool:
     return done(_ok(Paragraph(s), s))
 
 
+def span_one(s: str) -> bool:
+    """
+    pre: len(s) <= 3 and all(c in ALPHA for c in s)
+    post: _
+    """
+    # created from the string alone (a later append would re-normalise the content)
+    return done(_ok(Span(s), s))
+
+
+def header_one(s: str) -> bool:
+    """
+    pre: len(s) <= 3 and all(c in ALPHA for c in s)
+    post: _
+    """
+    return done(_ok(Header(1, s), s))
+
+
 def para_two_appends(s1: str, s2: str) -> bool:
     """
     pre: len(s1) <= 2 and len(s2) <= 2 and all(c in ALPHA for c in s1 + s2)
